@@ -798,8 +798,11 @@ def is_none_agg(t):
 
 
 def clip_stack_empty_guard(ctx, b, bi):
-    for op, a, b2, si in normalized_guards(ctx, b, bi):
+    # (facts_at also looks through a boolean variable that holds the `&&` of the conditions)
+    for op, a, b2, si in shared.facts_at(ctx, b, bi):
         if op == 'true' and is_call(a, 'Vec::<T, A>::is_empty') and is_self_field(strip_all(a[2][0]), 'clip_stack'):
+            return True
+        if op in ('Eq', '!Ne') and b2 is not None and const_val(b2) == 0 and is_call(strip_all(a), '::len') and is_self_field(strip_all(strip_all(a)[2][0]), 'clip_stack'):
             return True
     return False
 
@@ -1402,21 +1405,31 @@ def r06_5(ctx):
         an = ctx.an(b)
         key = 'draw_target::DrawTarget::%s' % name
         st = [(a, v, pt) for a, v, pt, kind in an.stores if kind == 'assign' and field_path(a) == (('param', 1), ['transform'])]
-        over = [(a, v, pt) for a, v, pt in st if is_call(v, 'identity')]
-        rest = [(a, v, pt) for a, v, pt in st if v == ('field', ('deref', ('param', 1)), 'transform', 'raqote::draw_target::DrawTarget', None)]
-        if not ctx.check(len(over) >= 1 and len(st) == len(over) + len(rest), R, key + '|stores', b.loc(), '%d overwrite(s), %d restore(s)' % (len(over), len(rest)),
+        # `mem::replace(&mut self.transform, identity())` overwrites and hands back the old value in one step
+        def is_swap_out(v):
+            v = strip_all(v)
+            return is_call(v, 'mem::replace') and len(v[2]) == 2 and is_self_field(strip_all(v[2][0]), 'transform') and is_call(strip_all(v[2][1]), 'identity')
+        swaps = [(a, v, pt) for a, v, pt, kind in an.stores if kind == 'call' and is_self_field(strip_all(a), 'transform') and is_swap_out(v)]
+        over = [(a, v, pt) for a, v, pt in st if is_call(v, 'identity')] + swaps
+        rest = [(a, v, pt) for a, v, pt in st if v == ('field', ('deref', ('param', 1)), 'transform', 'raqote::draw_target::DrawTarget', None) or is_swap_out(v)]
+        if not ctx.check(len(over) >= 1 and len(st) + len(swaps) == len(over) + len(rest), R, key + '|stores', b.loc(), '%d overwrite(s), %d restore(s)' % (len(over), len(rest)),
                          '%s stores to self.transform something that is neither the identity nor the saved transform' % name):
             continue
         for a, v, pt in over:
             # every path from the overwrite to return passes a restore whose saved value was loaded before the overwrite
             good = set()
             for a2, v2, pt2 in rest:
+                if is_swap_out(v2):
+                    # restores what this very replace handed back
+                    if strip_all(v2)[3] == pt[0]:
+                        good.add(pt2[0])
+                    continue
                 stmt = b.blocks[pt2[0]]['st'][pt2[1]]
                 d0 = shared.origin_def(an, stmt['rv'], pt2[0], pt2[1])
                 if d0 is not None and (an.cfg.dominates(d0.bb, pt[0]) and (d0.bb != pt[0] or d0.idx < pt[1])):
                     good.add(pt2[0])
             ok, path = an.cfg.must_pass_through(pt[0], good - {pt[0]}) if good else (False, None)
-            ctx.check(ok, R, key + '|restore', b.loc(b.blocks[pt[0]]['st'][pt[1]]['sp']), 'transform restored on every path',
+            ctx.check(ok, R, key + '|restore', b.loc(b.blocks[pt[0]]['st'][pt[1]]['sp']) if pt[1] < len(b.blocks[pt[0]]['st']) else call_line(b, pt[0]), 'transform restored on every path',
                       '%s overwrites self.transform with the identity and does not restore the value saved before on every path to return' % name)
     # device-space functions do not touch the stacks they should not
     b = ctx.body(DT + 'pop_layer', R)
@@ -1600,3 +1613,58 @@ def r03_10(ctx):
                           'no guard of the pixel write reads the source or destination pixel',
                           '%s writes the pixel only under a test of the source/destination pixel itself (%s): skipping e.g. transparent source pixels is wrong for every blend mode in which a transparent source changes the destination (Src, Clear, SrcIn, DstIn, SrcOut, DstAtop)' % (short(q), sorted(set(bad))))
     ctx.floor(R, 'pixel writes through blend/over', n, 4)
+
+
+def r05_8(ctx):
+    """clip_bounds() is the rectangle of the *top* clip entry, or the whole surface when the stack is empty (every
+    consumer — composite, push_clip, push_layer — relies on "top of stack = intersection of everything pushed")"""
+    R = 'R05.8'
+    b = ctx.body(DT + 'clip_bounds', R)
+    an = ctx.an(b)
+    key = 'draw_target::DrawTarget::clip_bounds'
+    rts = shared.ret_terms(ctx, b)
+    top = rect = False
+    wrong = []
+    surface = {'w': False, 'h': False, 'zero': 0}
+    for t in rts:
+        D = Deps(an)
+        D.closure(t)
+        for x in D.visited | D.touched:
+            if not isinstance(x, tuple) or not x:
+                continue
+            if x[0] == 'call' and isinstance(x[1], str):
+                nm = x[1].split('::')[-1]
+                recv = strip_all(x[2][0]) if x[2] else None
+                on_stack = recv is not None and any(is_self_field(strip_all(y), 'clip_stack') for y in subterms(x[2][0]))
+                if nm == 'last' and on_stack:
+                    top = True
+                if on_stack and nm in ('first', 'get', 'iter', 'index', 'get_unchecked'):
+                    wrong.append(nm)
+            if len(x) == 5 and x[0] == 'field' and x[2] == 'rect' and x[3] == 'raqote::draw_target::Clip':
+                rect = True
+            if is_self_field(strip_all(x), 'width'):
+                surface['w'] = True
+            if is_self_field(strip_all(x), 'height'):
+                surface['h'] = True
+    # the closure of an Option::map call is a separate body: look into closures of clip_bounds as well
+    for q2, cb in ctx.F.bodies.items():
+        if q2.startswith(DT + 'clip_bounds::{closure'):
+            for t2 in shared.ret_terms(ctx, cb):
+                if any(len(x) == 5 and x[0] == 'field' and x[2] == 'rect' and x[3] == 'raqote::draw_target::Clip' for x in subterms(t2)):
+                    rect = True
+    ctx.check(top and rect and not wrong, R, key + '|top entry', b.loc(), 'clip_bounds = clip_stack.last().rect', 'clip_bounds does not read the rect of the top clip entry (clip_stack.last()%s): nested clips are not intersected' % (', uses %s' % sorted(set(wrong)) if wrong else ''))
+    ctx.check(surface['w'] and surface['h'], R, key + '|empty stack', b.loc(), 'the whole surface when no clip is pushed', 'clip_bounds does not fall back to (0, 0, width, height) when the stack is empty')
+
+
+def r11_6(ctx):
+    """set_transform stores its argument, get_transform returns the stored transform"""
+    R = 'R11.6'
+    b = ctx.body(DT + 'set_transform', R)
+    an = ctx.an(b)
+    st = [(a, v) for a, v, pt, kind in an.stores if kind == 'assign' and field_path(a) == (('param', 1), ['transform'])]
+    ok = len(st) == 1 and strip_all(st[0][1]) in (('deref', ('param', 2)), ('param', 2)) and an.cfg.must_pass_through(0, set(pt[0] for a, v, pt, kind in an.stores if kind == 'assign' and field_path(a) == (('param', 1), ['transform'])))[0]
+    ctx.check(ok, R, 'draw_target::DrawTarget::set_transform', b.loc(), 'self.transform = *transform', 'set_transform does not store exactly its argument in self.transform on every path')
+    g = ctx.body(DT + 'get_transform', R)
+    rts = [strip_all(t) for t in shared.ret_terms(ctx, g)]
+    ok = len(rts) == 1 and is_self_field(rts[0][1] if rts[0][0] == 'ref' else rts[0], 'transform')
+    ctx.check(ok, R, 'draw_target::DrawTarget::get_transform', g.loc(), 'returns &self.transform', 'get_transform does not return the stored transform')
